@@ -453,4 +453,35 @@ def fstDirect (ns : List Nat) (snps : List (List (List Bool))) : Rat :=
   fstRatio (sumMap snps fun cols => fstAAt ns (cols.map countTrue))
            (sumMap snps fun cols => fstDAt ns (cols.map countTrue))
 
+/-! ### what `S` does to the spectrum it is called on (the statements are generated: `sBody`)
+
+    `S` saves the mask, masks the two corner entries in place, sums the visible entries and puts the saved mask back.
+    The saved mask is either a copy or the live mask itself; in the second case the in-place `mask_corners()` is seen
+    through it and putting it back changes nothing. -/
+
+inductive SavedMask where
+  | nothing
+  | copy (m : List Nat → Bool)
+  | alias
+
+structure SState where
+  live : List Nat → Bool
+  saved : SavedMask
+  s : Rat
+
+def sStep (proj : List Nat) (f : List Nat → Rat) (st : SState) : MaskStmt → SState
+  | .saveCopy => { st with saved := .copy st.live }
+  | .saveAlias => { st with saved := .alias }
+  | .maskCorners => { st with live := fun idx => st.live idx || isCorner proj idx }
+  | .sumVisible => { st with s := boxSum (shapeOf proj) fun idx => if st.live idx then 0 else f idx }
+  | .restore => match st.saved with
+      | .copy m => { st with live := m }
+      | _ => st
+
+def sRunWith (body : List MaskStmt) (proj : List Nat) (f : List Nat → Rat) (m : List Nat → Bool) : SState :=
+  body.foldl (sStep proj f) { live := m, saved := .nothing, s := 0 }
+
+/-- the state after `fs.S()` on a spectrum with data `f` and mask `m`: `.s` the value returned, `.live` the mask left behind -/
+def sRun (proj : List Nat) (f : List Nat → Rat) (m : List Nat → Bool) : SState := sRunWith sBody proj f m
+
 end DadiVerif.DataDict
